@@ -130,6 +130,7 @@ func runC07(r *Run) {
 		c07Rollback(c)
 	}
 	c07Cleanup(c)
+	c07Imports(r)
 }
 
 func (c *c07Ctx) isFailedAtom(v ssa.Value) bool {
@@ -467,7 +468,7 @@ func c07StatusFunctions(c *c07Ctx, newObj ssa.Value) {
 					}
 				}
 			}
-			if last == nil || !isNilConst(last.Val) {
+			if last == nil || !isNilConst(p.Resolve(last.Val)) {
 				okAll = false
 				detail = "a path with failed=true does not end with status.Canary = nil: " + shortFacts(p)
 			}
